@@ -251,6 +251,7 @@ package plugin
 //@   ensures result1 != nil ==> result0 == nil
 //@   ensures result1 == nil ==> result0 != nil && fresh(result0) && result0.log == log
 //@   ensures result1 == nil && result0.stdioClient != nil ==> stdio_ctx(result0.stdioClient) == ctx   [C03.e]
+//@   at call (plugin.GRPCStdioClient).StreamStdio#1 assert len(arg2) == 0 && arg0 == ctx   [C11.size] [C03.e]
 
 //@ func newGRPCClient
 //@   nopanic [C03.d]
@@ -322,6 +323,7 @@ package plugin
 //@   ensures result1 == nil && !c.config.Reattach.Test ==> c.runner == attached   [C15.kill]
 //@   ensures result1 == nil && c.config.Reattach.Test ==> c.runner == old(c.runner) && c.negotiatedVersion == c.config.Reattach.ProtocolVersion   [C15.kill]
 //@   ensures launches == old(launches) && rf_calls == old(rf_calls) && kills == old(kills)   [C19.kill]
+//@   at call cmdrunner.ReattachFunc#1 assert c.config.Reattach.ReattachFunc == nil   [C15.func]
 
 //@ func (*Client).ID
 //@   nopanic [C19.total]
@@ -454,8 +456,8 @@ package plugin
 //@   at return#1 assert forall y :: rdom1[y] && Hset[y] ==> y <= result0   [C02.max]
 //@   at return#2 assert forall y :: rdom1[y] ==> !Hset[y]   [C02.min]
 //@   at return#2 assert (exists z :: rdom1[z]) ==> rdom1[result0] && (forall y :: rdom1[y] ==> result0 <= y)   [C02.min]
-//@   ensures (exists x :: Sv(x) && Hc(vs, x)) ==> Sv(result0) && Hc(vs, result0) && (forall y :: Sv(y) && Hc(vs, y) ==> y <= result0)   [C02.max]
-//@   ensures !(exists x :: Sv(x) && Hc(vs, x)) && (exists z :: Sv(z)) ==> Sv(result0) && (forall y :: Sv(y) ==> result0 <= y)   [C02.min]
+//@   ensures (exists x :: Sv(x) && Hc(vs, x)) ==> Sv(result0) && Hc(vs, result0) && (forall y :: Sv(y) && Hc(vs, y) ==> y <= result0)   [C02.max] [C17.acts]
+//@   ensures !(exists x :: Sv(x) && Hc(vs, x)) && (exists z :: Sv(z)) ==> Sv(result0) && (forall y :: Sv(y) ==> result0 <= y)   [C02.min] [C17.acts]
 //@   ensures !(exists x :: Sv(x)) ==> result0 == pv0 && result2 == P0 && result1 == "netrpc"   [C02.none]
 //@   ensures (exists x :: Sv(x)) ==> result2 == ite(P0 != nil && result0 == pv0, P0, V0[result0])   [C02.set]
 //@   ensures opts.GRPCServer == nil ==> result1 == "netrpc"   [C02.proto]
